@@ -10,6 +10,7 @@ re-arms), conservation of tickets / bytes.  ThreadSanitizer reports are keyed
 here by the first library frame of the two racing stacks.
 """
 import re
+import vlib
 from checks import generic
 
 RULE = ("case = one base + loop thread + workers; 'storm' cases mix all operations with slow callbacks, 'solo' cases issue one "
@@ -45,6 +46,10 @@ _FR = re.compile(r"^\s*#\d+\s+(\S+)\s+(\S+?):\d+")
 _FR2 = re.compile(r"^\s*#\d+\s+0x[0-9a-f]+\s+in\s+(\S+)\s+(\S+?):\d+")
 
 
+def _is_lib(path):
+    return "/repo/" in path or path.startswith(vlib.REPO.rstrip("/") + "/")
+
+
 def _tsan_key(text):
     """first library (/repo) function of each of the first two stacks of a TSan report"""
     m = re.search(r"WARNING: ThreadSanitizer: (.+?) \(pid", text)
@@ -55,7 +60,7 @@ def _tsan_key(text):
         if fm:
             if not in_stack:
                 in_stack, cur = True, None
-            if cur is None and "/repo/" in fm.group(2):
+            if cur is None and _is_lib(fm.group(2)):
                 cur = fm.group(1)
         else:
             if in_stack:
